@@ -904,6 +904,12 @@ def setitem(t, idx, v):
           break
       else:
         cin = c_ if cin is True else sym.sand(cin, c_)
+    if isinstance(cin, SBool):
+      sc = z3.simplify(cin.z)
+      if z3.is_false(sc):
+        cin = False
+      elif z3.is_true(sc):
+        cin = True
     if cin is False:
       return t.at(oidx)
     if vt is None:
